@@ -275,22 +275,44 @@ def orFields (tm : TypeMap) (l r : Obj) : R Obj :=
     | .noneV => .ok (.finst (.anyOf [dl, .noneF]))
     | _ => orConverted dl (gtli tm r)
 
-/-- operands for which `type.__or__` / `GenericAlias.__or__` builds a `types.UnionType` -/
+/-- operands for which `type.__or__` / `GenericAlias.__or__` builds a `types.UnionType`: builtin
+    classes (and the class `typing.Any`), PEP-585 aliases, PEP-604 unions -/
 def plainType (tm : TypeMap) : Obj → Bool
-  | .ty a => tm.isClass a && a != .tAny
+  | .ty a => tm.isClass a
   | .alias false _ _ => true
   | .uType _ => true
   | _ => false
+/-- right operands a plain type accepts without involving `typing` -/
 def plainRight (tm : TypeMap) : Obj → Bool
   | .noneV => true
   | .fcls _ => true
   | o => plainType tm o
+/-- `typing` objects: their `__or__` / `__ror__` build `typing.Union[l, r]` (flattened, de-duplicated) -/
+def typingObj (tm : TypeMap) : Obj → Bool
+  | .ty a => tm.generic a
+  | .alias true _ _ => true
+  | .tUnion _ => true
+  | _ => false
+def isFclsObj : Obj → Bool
+  | .fcls _ => true
+  | _ => false
 
-/-- Python's `l | r` -/
+/-- Python's `l | r`.  A Field on the left: `_or_fields`.  A `typing` object on either side:
+    `typing.Union`.  Plain types / `None` / Field classes among themselves: `types.UnionType`
+    (`None | None`, and a Field *instance* on the right of a plain type or `None`, are TypeErrors). -/
 def pipeObj (tm : TypeMap) (l r : Obj) : R Obj :=
   if isFieldObj l then orFields tm l r
-  else if plainType tm l && plainRight tm r then .ok (mkUType (unionMembers l ++ unionMembers r))
-  else .error (.other "unmodelled-pipe")
+  else if typingObj tm l then .ok (mkUnion (unionMembers l ++ unionMembers r))
+  else if plainType tm l then
+    (if typingObj tm r then .ok (mkUnion (unionMembers l ++ unionMembers r))
+     else if plainRight tm r then .ok (mkUType (unionMembers l ++ unionMembers r))
+     else .error .typeErr)
+  else match l with
+    | .noneV =>
+      if typingObj tm r then .ok (mkUnion (unionMembers l ++ unionMembers r))
+      else if plainType tm r || isFclsObj r then .ok (mkUType (unionMembers l ++ unionMembers r))
+      else .error .typeErr
+    | _ => .error (.other "unmodelled-pipe")
 
 /-- the one `none`-able `items=` entry of `Map(items=[K, V])` -/
 def mapEntry (r : Option FieldDecl) : R FieldDecl :=
